@@ -77,7 +77,8 @@ fn cmd_check(id: &str, tier: Tier, child: bool) -> i32 {
     let known = load_known(&known_path());
     let cap = std::env::var("VERIF_WALL_CAP_S").ok().and_then(|s| s.parse().ok()).unwrap_or(if tier == Tier::Quick { 240.0 } else { 3000.0 });
     let start = std::time::Instant::now();
-    let batch = run_batch(id, tier, base_seed(), &spec.classes, &env, threads(), cap, scale());
+    let sc = if tier == Tier::Thorough { scale() * spec.thorough_boost } else { scale() };
+    let batch = run_batch(id, tier, base_seed(), &spec.classes, &env, threads(), cap, sc);
     let rep = triage(id, &batch, &spec.classes, &env, &known);
     let part = summarise(&batch, &spec.classes, &env, &rep, tier);
     let mut parts = vec![part];
